@@ -7,12 +7,12 @@ import ChalkModel.Lemmas.FixedPointSemK
 
 namespace Chalk.FixedPoint.Mix
 open Chalk.FixedPoint.Cyc (JE JA MinLe InCache InGraph Def Undef flagAt StackExt stackGoals
-  nodup_length_le stackGoals_sublist shouldContinue_quiet)
+  nodup_length_le stackGoals_sublist shouldContinue_cases QuietSt)
 
 section
-variable {inst : Instance} {P : Nat → Prop} {dom : List Nat} {lvl : Nat → Nat} {rec : SubSolver} {cfg : Cfg}
+variable {inst : Instance} {P : Nat → Prop} {dom : List Nat} {lvl : Nat → Nat} {fx : Bool} {rec : SubSolver} {cfg : Cfg}
 
-theorem Inv.stackGoals_dom {s : St} (hi : Inv inst P dom lvl s) : ∀ x, x ∈ stackGoals s.graph → x ∈ dom := by
+theorem Inv.stackGoals_dom {s : St} (hi : Inv inst P dom lvl fx s) : ∀ x, x ∈ stackGoals s.graph → x ∈ dom := by
   intro x hx
   have := (stackGoals_sublist s.graph).subset hx
   obtain ⟨n, hn, hgo⟩ := List.mem_map.mp this
@@ -20,12 +20,12 @@ theorem Inv.stackGoals_dom {s : St} (hi : Inv inst P dom lvl s) : ∀ x, x ∈ s
   rw [← hgo]; exact hi.inDom i n hi'
 
 /-- the stack is never deeper than the number of goals -/
-theorem Inv.stack_le {s : St} (hi : Inv inst P dom lvl s) : s.stack.length ≤ dom.length := by
+theorem Inv.stack_le {s : St} (hi : Inv inst P dom lvl fx s) : s.stack.length ≤ dom.length := by
   rw [← hi.cnt]
   exact nodup_length_le _ _ (hi.nodup.sublist (stackGoals_sublist _)) hi.stackGoals_dom
 
 /-- … and there is room for a goal that is not yet in the graph -/
-theorem Inv.stack_lt {s : St} (hi : Inv inst P dom lvl s) {g : Nat} (hg : g ∈ dom) (hu : Undef s g) :
+theorem Inv.stack_lt {s : St} (hi : Inv inst P dom lvl fx s) {g : Nat} (hg : g ∈ dom) (hu : Undef s g) :
     s.stack.length < dom.length := by
   rw [← hi.cnt]
   have hnot : g ∉ stackGoals s.graph := by
@@ -44,82 +44,204 @@ theorem Inv.stack_lt {s : St} (hi : Inv inst P dom lvl s) {g : Nat} (hg : g ∈ 
   omega
 
 /-- totality specification of a sub-goal solver with depth fuel `D` -/
-def SubTot (inst : Instance) (P : Nat → Prop) (dom : List Nat) (lvl : Nat → Nat) (cfg : Cfg) (D : Nat)
+def SubTot (inst : Instance) (P : Nat → Prop) (dom : List Nat) (lvl : Nat → Nat) (fx : Bool) (cfg : Cfg) (D : Nat)
     (rec : SubSolver) : Prop :=
-  ∀ g m s, Inv inst P dom lvl s → g ∈ dom → Below inst lvl s g → cfg.overflowDepth < D + s.stack.length →
+  ∀ g m s, Inv inst P dom lvl fx s → g ∈ dom → Below inst lvl s g → cfg.overflowDepth < D + s.stack.length →
     ∃ v m' s', rec g m s = .ok (v, m') s'
 
 variable {D : Nat}
 
-theorem fulfillRound_tot (hrec : SubSpec inst P dom lvl rec) (htot : SubTot inst P dom lvl cfg D rec) (L : Nat) :
-    ∀ (cs acc : List Nat) (m : Min) (s : St), Inv inst P dom lvl s →
+/-- every cache entry is the true answer (vacuous when caching is disabled) -/
+def CacheOK (P : Nat → Prop) (s : St) : Prop := ∀ k v, InCache s k v → Holds P v k
+
+/-- the call returned, or it ended in the work-budget panic (only possible if a budget is set)
+    and left a correct cache -/
+def Good (P : Nat → Prop) (cfg : Cfg) {α : Type} (r : Res α) : Prop :=
+  (∃ a s', r = .ok a s') ∨ (∃ s', r = .panic .budget s' ∧ cfg.budget ≠ none ∧ CacheOK P s')
+
+theorem Good.of_none {α : Type} {r : Res α} (h : Good P cfg r) (hb : cfg.budget = none) :
+    ∃ a s', r = .ok a s' := by
+  cases h with
+  | inl h => exact h
+  | inr h => obtain ⟨_, _, hne, _⟩ := h; exact absurd hb hne
+
+/-- "returns or budget panic" specification of a sub-goal solver with depth fuel `D` -/
+def SubGood (inst : Instance) (P : Nat → Prop) (dom : List Nat) (lvl : Nat → Nat) (fx : Bool) (cfg : Cfg) (D : Nat)
+    (rec : SubSolver) : Prop :=
+  ∀ g m s, Inv inst P dom lvl fx s → g ∈ dom → Below inst lvl s g → cfg.overflowDepth < D + s.stack.length →
+    Good P cfg (rec g m s)
+
+theorem tick_cases (cfg : Cfg) {s : St} (hi : Inv inst P dom lvl fx s) :
+    tick cfg s = .ok () { s with work := s.work + 1 } ∨
+    (∃ s0, tick cfg s = .panic .budget s0 ∧ cfg.budget ≠ none ∧ CacheOK P s0) := by
+  cases ht : tick cfg s with
+  | ok u s0 => left; rw [tick_ok cfg s s0 ht]
+  | panic site s0 =>
+    right
+    obtain ⟨hsite, hbud⟩ := tick_panic_budget cfg s s0 site ht
+    subst hsite
+    refine ⟨s0, rfl, hbud, ?_⟩
+    rw [tick_panic cfg s s0 .budget ht]
+    exact hi.cacheOK
+
+theorem fulfillRound_good (hrec : SubSpec inst P dom lvl fx rec) (hgood : SubGood inst P dom lvl fx cfg D rec)
+    (L : Nat) :
+    ∀ (cs acc : List Nat) (m : Min) (s : St), Inv inst P dom lvl fx s →
       (∀ x, x ∈ cs → x ∈ dom ∧ Below inst lvl s x ∧ lvl x ≤ L) →
-      cfg.overflowDepth < D + s.stack.length →
-      ∃ o m' s', fulfillRound rec cs acc m s = .ok (o, m') s'
-  | [], acc, m, s, _, _, _ => ⟨some acc, m, s, rfl⟩
+      cfg.overflowDepth < D + s.stack.length → Good P cfg (fulfillRound rec cs acc m s)
+  | [], acc, m, s, _, _, _ => Or.inl ⟨_, _, rfl⟩
   | x :: rest, acc, m, s, hi, hd, hres => by
     obtain ⟨hxd, hxb, _⟩ := hd x (List.mem_cons_self ..)
-    obtain ⟨v, m1, s1, hr⟩ := htot x m s hi hxd hxb hres
-    obtain ⟨hi1, hs1, _, hf1, _⟩ := hrec x m s v m1 s1 hi hxd hxb hr
-    simp only [fulfillRound, hr]
-    cases v with
-    | ambig => exact hf1.ne_ambig.elim
-    | noSolution => exact ⟨none, m1, s1, rfl⟩
-    | unique =>
-      exact fulfillRound_tot hrec htot L rest acc m1 s1 hi1 (fun y hy => by
-          obtain ⟨a, b, c⟩ := hd y (List.mem_cons_of_mem _ hy)
-          exact ⟨a, b.step hs1, c⟩)
-        (by rw [hs1.stack.1]; exact hres)
+    cases hgood x m s hi hxd hxb hres with
+    | inr hp =>
+      obtain ⟨s1, hr, h2⟩ := hp
+      exact Or.inr ⟨s1, by simp only [fulfillRound, hr], h2⟩
+    | inl hok =>
+      obtain ⟨⟨v, m1⟩, s1, hr⟩ := hok
+      obtain ⟨hi1, hs1, _, _, _⟩ := hrec x m s v m1 s1 hi hxd hxb hr
+      have hd1 : ∀ y, y ∈ rest → y ∈ dom ∧ Below inst lvl s1 y ∧ lvl y ≤ L := fun y hy => by
+        obtain ⟨a, b, c⟩ := hd y (List.mem_cons_of_mem _ hy)
+        exact ⟨a, b.step hs1, c⟩
+      simp only [fulfillRound, hr]
+      cases v with
+      | ambig =>
+        exact fulfillRound_good hrec hgood L rest (acc ++ [x]) m1 s1 hi1 hd1 (by rw [hs1.stack.1]; exact hres)
+      | noSolution => exact Or.inl ⟨_, _, rfl⟩
+      | unique =>
+        exact fulfillRound_good hrec hgood L rest acc m1 s1 hi1 hd1 (by rw [hs1.stack.1]; exact hres)
 
-theorem fulfillSolve_tot (hrec : SubSpec inst P dom lvl rec) (htot : SubTot inst P dom lvl cfg D rec) (L : Nat)
-    (alt : List Nat) (m : Min) (s : St) (hi : Inv inst P dom lvl s)
+theorem suggestPass_good (h16 : fx = true → cfg.fixF16 = true) (hrec : SubSpec inst P dom lvl fx rec)
+    (hgood : SubGood inst P dom lvl fx cfg D rec) (L : Nat) :
+    ∀ (ds : List Nat) (m : Min) (s : St), Inv inst P dom lvl fx s →
+      (∀ x, x ∈ ds → x ∈ dom ∧ Below inst lvl s x ∧ lvl x ≤ L) → s.interrupted = true →
+      cfg.overflowDepth < D + s.stack.length → Good P cfg (suggestPass cfg rec ds m s)
+  | [], m, s, _, _, _, _ => Or.inl ⟨_, _, rfl⟩
+  | x :: rest, m, s, hi, hd, hint, hres => by
+    obtain ⟨hxd, hxb, _⟩ := hd x (List.mem_cons_self ..)
+    cases hgood x m s hi hxd hxb hres with
+    | inr hp =>
+      obtain ⟨s1, hr, h2⟩ := hp
+      exact Or.inr ⟨s1, by simp only [suggestPass, hr], h2⟩
+    | inl hok =>
+      obtain ⟨⟨v, m1⟩, s1, hr⟩ := hok
+      obtain ⟨hi1, hs1, _, _, _⟩ := hrec x m s v m1 s1 hi hxd hxb hr
+      simp only [suggestPass, hr]
+      cases v with
+      | ambig =>
+        exact suggestPass_good h16 hrec hgood L rest m1 s1 hi1 (fun y hy => by
+            obtain ⟨a, b, c⟩ := hd y (List.mem_cons_of_mem _ hy)
+            exact ⟨a, b.step hs1, c⟩) (hs1.intr hint) (by rw [hs1.stack.1]; exact hres)
+      | noSolution =>
+        have h16' : cfg.fixF16 = true := by
+          cases hi1.fixes with
+          | inl e => exact h16 e
+          | inr e =>
+            have := hs1.intr hint
+            rw [e.2] at this
+            cases this
+        simp only [h16', if_true]; exact Or.inl ⟨_, _, rfl⟩
+      | unique => exact Or.inl ⟨_, _, rfl⟩
+
+theorem fulfillSolve_good (h16 : fx = true → cfg.fixF16 = true) (hrec : SubSpec inst P dom lvl fx rec)
+    (hgood : SubGood inst P dom lvl fx cfg D rec) (L : Nat)
+    (alt : List Nat) (m : Min) (s : St) (hi : Inv inst P dom lvl fx s)
     (hd : ∀ x, x ∈ alt → x ∈ dom ∧ Below inst lvl s x ∧ lvl x ≤ L)
-    (hres : cfg.overflowDepth < D + s.stack.length) :
-    ∃ v m' s', fulfillSolve cfg rec alt m s = .ok (v, m') s' := by
-  obtain ⟨o, m1, s1, hr⟩ := fulfillRound_tot hrec htot L alt.reverse [] m s hi
-    (fun x hx => hd x (List.mem_reverse.mp hx)) hres
-  obtain ⟨_, _, _, _, hcase⟩ := fulfillRound_sem hrec L 0 alt.reverse [] m s o m1 s1 hi (Nat.zero_le _)
-    (fun x hx => hd x (List.mem_reverse.mp hx)) hr
+    (hres : cfg.overflowDepth < D + s.stack.length) : Good P cfg (fulfillSolve cfg rec alt m s) := by
   unfold fulfillSolve
-  rw [hr]
-  cases hcase with
-  | inl h => rw [h.1]; exact ⟨_, _, _, rfl⟩
-  | inr h => rw [h.1]; exact ⟨_, _, _, rfl⟩
+  cases fulfillRound_good hrec hgood L alt.reverse [] m s hi (fun x hx => hd x (List.mem_reverse.mp hx)) hres with
+  | inr hp =>
+    obtain ⟨s1, hr, h2⟩ := hp
+    rw [hr]
+    exact Or.inr ⟨s1, rfl, h2⟩
+  | inl hok =>
+    obtain ⟨⟨o, m1⟩, s1, hr⟩ := hok
+    obtain ⟨hi1, hs1, _, _, hcase⟩ := fulfillRound_sem hrec L 0 alt.reverse [] m s o m1 s1 hi (Nat.zero_le _)
+      (fun x hx => hd x (List.mem_reverse.mp hx)) hr
+    rw [hr]
+    cases hcase with
+    | inr h => rw [h.1]; exact Or.inl ⟨_, _, rfl⟩
+    | inl h =>
+      obtain ⟨ret, ho, hsub, hint, _⟩ := h
+      rw [List.nil_append] at ho
+      subst ho
+      cases ret with
+      | nil => exact Or.inl ⟨_, _, rfl⟩
+      | cons r0 rs =>
+        simp only
+        exact suggestPass_good h16 hrec hgood L (r0 :: rs).reverse m1 s1 hi1
+          (fun x hx => by
+            obtain ⟨a, b, c⟩ := hd x (List.mem_reverse.mp (hsub x (List.mem_reverse.mp hx)))
+            exact ⟨a, b.step hs1, c⟩)
+          (hint (by simp)) (by rw [hs1.stack.1]; exact hres)
 
-theorem solveFromClauses_tot (hrec : SubSpec inst P dom lvl rec) (htot : SubTot inst P dom lvl cfg D rec) (L : Nat) :
-    ∀ (alts : List (List Nat)) (m : Min) (s : St), Inv inst P dom lvl s →
+theorem solveFromClauses_good (h16 : fx = true → cfg.fixF16 = true) (hrec : SubSpec inst P dom lvl fx rec)
+    (hgood : SubGood inst P dom lvl fx cfg D rec) (L : Nat) :
+    ∀ (alts : List (List Nat)) (cur : Option V) (m : Min) (s : St), Inv inst P dom lvl fx s → CurOK s cur →
       (∀ alt, alt ∈ alts → ∀ x, x ∈ alt → x ∈ dom ∧ Below inst lvl s x ∧ lvl x ≤ L) →
       cfg.overflowDepth < D + s.stack.length →
-      ∃ v m' s', solveFromClauses cfg rec true alts none m s = .ok (v, m') s'
-  | [], m, s, _, _, _ => ⟨_, _, _, rfl⟩
-  | alt :: rest, m, s, hi, hd, hres => by
-    obtain ⟨w, m1, s1, hr⟩ := fulfillSolve_tot hrec htot L alt m s hi (hd alt (List.mem_cons_self ..)) hres
-    obtain ⟨hi1, hs1, _, _, hcase⟩ := fulfillSolve_sem hrec L 0 alt m s w m1 s1 hi (Nat.zero_le _)
-      (hd alt (List.mem_cons_self ..)) hr
-    rw [solveFromClauses_cons, hr]
-    cases hcase with
-    | inl h =>
-      rw [h.1]
-      simp only [stepCur, trivialTrue, Bool.true_and, beq_self_eq_true, if_true]
-      exact ⟨_, _, _, rfl⟩
-    | inr h =>
-      rw [h.1]
-      simp only [stepCur]
-      exact solveFromClauses_tot hrec htot L rest m1 s1 hi1 (fun a ha y hy => by
-          obtain ⟨p, q, r⟩ := hd a (List.mem_cons_of_mem _ ha) y hy
-          exact ⟨p, q.step hs1, r⟩)
-        (by rw [hs1.stack.1]; exact hres)
+      Good P cfg (solveFromClauses cfg rec true alts cur m s)
+  | [], cur, m, s, _, _, _, _ => Or.inl ⟨_, _, rfl⟩
+  | alt :: rest, cur, m, s, hi, hcur, hd, hres => by
+    rw [solveFromClauses_cons]
+    cases fulfillSolve_good h16 hrec hgood L alt m s hi (hd alt (List.mem_cons_self ..)) hres with
+    | inr hp =>
+      obtain ⟨s1, hr, h2⟩ := hp
+      rw [hr]
+      exact Or.inr ⟨s1, rfl, h2⟩
+    | inl hok =>
+      obtain ⟨⟨w, m1⟩, s1, hr⟩ := hok
+      obtain ⟨hi1, hs1, _, _, hcase⟩ := fulfillSolve_sem hrec L 0 alt m s w m1 s1 hi (Nat.zero_le _)
+        (hd alt (List.mem_cons_self ..)) hr
+      rw [hr]
+      have hrest := fun (cur' : Option V) (hc' : CurOK s1 cur') =>
+        solveFromClauses_good h16 hrec hgood L rest cur' m1 s1 hi1 hc'
+          (fun a ha y hy => by
+            obtain ⟨p, q, r⟩ := hd a (List.mem_cons_of_mem _ ha) y hy
+            exact ⟨p, q.step hs1, r⟩) (by rw [hs1.stack.1]; exact hres)
+      rcases hcase with h | h | h
+      · rw [h.1]
+        have hstep : stepCur true .unique cur = some .unique := by
+          cases hcur with
+          | inl e => subst e; rfl
+          | inr e => rw [e.1]; rfl
+        simp only [hstep, trivialTrue, Bool.true_and, beq_self_eq_true, if_true]
+        exact Or.inl ⟨_, _, rfl⟩
+      · rw [h.1]
+        have hstep : stepCur true .noSolution cur = cur := rfl
+        simp only [hstep]
+        cases hcur with
+        | inl e => subst e; exact hrest none (Or.inl rfl)
+        | inr e =>
+          rw [e.1]
+          have := hrest (some .ambig) (Or.inr ⟨rfl, hs1.intr e.2⟩)
+          simpa [trivialTrue] using this
+      · rw [h.1]
+        have hstep : stepCur true .ambig cur = some .ambig := by
+          cases hcur with
+          | inl e => subst e; rfl
+          | inr e => rw [e.1]; rfl
+        simp only [hstep]
+        have := hrest (some .ambig) (Or.inr ⟨rfl, h.2⟩)
+        simpa [trivialTrue] using this
 
-theorem solveIteration_tot (hyp : MHyp inst P dom lvl) (hrec : SubSpec inst P dom lvl rec)
-    (htot : SubTot inst P dom lvl cfg D rec) (g : Nat) (hg : g ∈ dom) (m : Min) (s : St)
-    (hi : Inv inst P dom lvl s) (ht : GTop s g) (hres : cfg.overflowDepth < D + s.stack.length) :
-    ∃ v m' s', solveIteration inst cfg rec g m s = .ok (v, m') s' := by
+theorem solveIteration_good (hyp : MHyp inst P dom lvl) (h16 : fx = true → cfg.fixF16 = true)
+    (hrec : SubSpec inst P dom lvl fx rec)
+    (hgood : SubGood inst P dom lvl fx cfg D rec) (g : Nat) (hg : g ∈ dom) (m : Min) (s : St)
+    (hi : Inv inst P dom lvl fx s) (ht : GTop s g) (hres : cfg.overflowDepth < D + s.stack.length) :
+    Good P cfg (solveIteration inst cfg rec g m s) := by
   unfold solveIteration
-  rw [shouldContinue_quiet hi.quiet]
-  simp only [hyp.ground g hg]
-  exact solveFromClauses_tot hrec htot (lvl g) (inst.deps g) m s hi
-    (fun alt ha x hx => ⟨hyp.closed g hg alt ha x hx, below_of_dep hi ht (hyp.lvl_le g hg alt ha x hx),
-      (hyp.lvl_le g hg alt ha x hx).1⟩) hres
+  obtain ⟨b, o, hb, hq⟩ := shouldContinue_cases s
+  rw [hb]
+  cases b with
+  | false => exact Or.inl ⟨_, _, rfl⟩
+  | true =>
+    simp only [hyp.ground g hg]
+    have i1 : Inv inst P dom lvl fx { s with oracle := o } :=
+      hi.oracleChange o s.interrupted id (fun q e => ⟨(hq q).2, e⟩)
+    have ht1 : GTop { s with oracle := o } g := ht
+    exact solveFromClauses_good h16 hrec hgood (lvl g) (inst.deps g) none m _ i1 (Or.inl rfl)
+      (fun alt ha x hx => ⟨hyp.closed g hg alt ha x hx, below_of_dep i1 ht1 (hyp.lvl_le g hg alt ha x hx),
+        (hyp.lvl_le g hg alt ha x hx).1⟩) hres
 
 end
 
